@@ -371,6 +371,9 @@ class Sim(object):
         self._set(importlib.import_module('sedfitter.timer'), 'time', self.clock)
         self._set(importlib.import_module('sedfitter.utils.io'), 'input', self.prompt)
         self._set(tempfile, 'mkdtemp', self.mkdtemp)
+        # the current directory is the run's scratch directory: a relative path used by the code under test stays inside it
+        self._cwd = os.getcwd()
+        os.chdir(self.root)
         self._stdout, self._stderr = sys.stdout, sys.stderr
         if not os.environ.get('PIPESIM_SHOW_OUTPUT'):
             sys.stdout = _Null()
@@ -385,6 +388,10 @@ class Sim(object):
 
     def __exit__(self, *exc):
         sys.stdout, sys.stderr = self._stdout, self._stderr
+        try:
+            os.chdir(self._cwd)
+        except OSError:
+            os.chdir('/')
         for mod, attr, old, missing in reversed(self._installed):
             if old is missing:
                 try:
